@@ -78,64 +78,7 @@ def gen_settings(rng, maxn=40):
     return out
 
 
-def block_bytes(blk) -> bytes:
-    enc = builder.encode_settings(blk["settings"], terminator=True, pad_to=4096 if blk["pad"] == "full" else None)
-    return builder.xor1(enc, blk["key"])
-
-
-def make_filler(kind, seed, size, keybyte=0):
-    if kind == "zeros":
-        return bytes(size)
-    # runs of ff ff ff make XorEncoded detection quadratic (every run within the marker search range - which extends
-    # to the end of the chunk that contains offset 1024 - is a candidate validated with a 1024-offset MZ scan):
-    # legal but minutes per run, so "ff" filler is ff ff fe repeated
-    if kind == "ff" or (kind == "key" and keybyte == 0xFF):
-        return (b"\xff\xff\xfe" * (size // 3 + 1))[:size]
-    if kind == "key":
-        return bytes([keybyte]) * size
-    if kind == "text":
-        return (b"The quick brown fox jumps over the lazy dog. " * (size // 45 + 1))[:size]
-    data = bytearray(builder.prng_bytes(seed, size))
-    if kind == "nearmiss":
-        # first 6 of the 7 header bytes under several keys, sprinkled
-        for j in range(0, max(0, size - 16), max(97, size // 12)):
-            k = (seed + j) & 0xFF
-            data[j:j + 6] = builder.xor1(builder.CONFIG_HEADER[:6], k)
-            data[j + 6] = k ^ 0x55
-    return bytes(data)
-
-
-def build_image(plan):
-    """Returns (raw image bytes, decoded view or None)."""
-    payload = bytearray(make_filler(plan["filler"]["kind"], plan["filler"]["seed"], plan["size"],
-                                    plan["filler"].get("key", 0)))
-    for blk in plan["blocks"]:
-        b = block_bytes(blk)
-        at = blk["at"]
-        if at + len(b) > len(payload):
-            payload += bytes(at + len(b) - len(payload))
-        payload[at:at + len(b)] = b
-    if plan.get("cut") is not None:
-        payload = payload[:plan["cut"]]
-    payload = bytes(payload)
-    c = plan["container"]
-    if c == "raw":
-        return payload, None
-    pe = plan["pe"]
-    img, _ = builder.build_pe(arch=pe["arch"], e_lfanew=pe["e_lfanew"], compile_stamp=pe["compile"],
-                              export_stamp=pe["export"], data=payload, text_size=pe["text"], filler_seed=pe["seed"])
-    img = builder.prng_bytes(pe["seed"] + 3, pe["prepend"]).replace(b"MZ", b"mz") + img + unhx(pe.get("append", ""))
-    if c == "pe":
-        return img, None
-    x = plan["xor"]
-    raw, _ = builder.xorencode(img, unhx(x["nonce"]), unhx(x["stub"]))
-    return raw, img
-
-
-def pe_data_offset(pe):
-    _, m = builder.build_pe(arch=pe["arch"], e_lfanew=pe["e_lfanew"], export_stamp=pe["export"], data=b"x",
-                            text_size=pe["text"], filler_seed=pe["seed"])
-    return pe["prepend"] + m["data"]
+from dst.storage.images import block_bytes, build_image, make_filler, pe_data_offset  # noqa: E402,F401
 
 
 def generate(rng, tier, index):
